@@ -13,6 +13,7 @@ import (
 	"time"
 
 	dbm "github.com/cometbft/cometbft-db"
+	codectypes "github.com/cosmos/cosmos-sdk/codec/types"
 	sdk "github.com/cosmos/cosmos-sdk/types"
 	"pgregory.net/rapid"
 
@@ -147,7 +148,16 @@ func (w *World) Deliver(kind string, msg sdk.Msg) *MsgStep {
 	w.StepIdx++
 	w.Trace.AddMsg(w.C, kind, msg)
 	pre := w.S
-	res := w.C.Deliver(msg)
+	// what a handler sees is always a wire-decoded message (UTC times, fresh
+	// structs): round-trip through the protobuf Any encoding as a tx decode does
+	var res chain.Result
+	if dec, err := wireRoundTrip(w.C, msg); err != nil {
+		G.Count("undecodable/"+kind, 1)
+		res = chain.Result{Err: fmt.Errorf("tx decode: %w", err), Stage: "decode"}
+	} else {
+		msg = dec
+		res = w.C.Deliver(msg)
+	}
 	w.Trace.SetResult(res.OK, res.Err)
 	post := pre
 	if res.OK {
@@ -288,4 +298,28 @@ func abbreviateErr(err error) string {
 		e = e[:90]
 	}
 	return e
+}
+
+func wireRoundTrip(c *chain.Chain, msg sdk.Msg) (out sdk.Msg, err error) {
+	defer func() {
+		if r := recover(); r != nil {
+			err = fmt.Errorf("panic: %v", r)
+		}
+	}()
+	any, err := codectypes.NewAnyWithValue(msg)
+	if err != nil {
+		return nil, err
+	}
+	bz, err := any.Marshal()
+	if err != nil {
+		return nil, err
+	}
+	var a2 codectypes.Any
+	if err := a2.Unmarshal(bz); err != nil {
+		return nil, err
+	}
+	if err := c.Cdc.UnpackAny(&a2, &out); err != nil {
+		return nil, err
+	}
+	return out, nil
 }
